@@ -1331,7 +1331,11 @@ impl<D: TextDecorator> SubRenderer<D> {
             },
             overflowed: new_width < min_width && self.options.allow_width_overflow,
         }));
-        if new_width < min_width && !self.options.allow_width_overflow {
+        // Too narrow if the content doesn't fit next to the prefix, or if
+        // the prefix alone is already wider than what we have.
+        if (new_width < min_width || prefix_len > self.width)
+            && !self.options.allow_width_overflow
+        {
             return Err(TooNarrow);
         }
         Ok(new_width.max(min_width))
